@@ -176,10 +176,22 @@ class _ProgressBars:
         while not self.stop_event.is_set():
             result = self._pop(self.result_queue)
             if result is not None:
-                self.chromosomes.update()
-                self.gene_names.refresh()
-                self._log_result(result)
-                self.results.append(result)
+                self._collect(result)
+        # every job has put its result before stop() is called, drain what is left
+        while True:
+            try:
+                result = self.result_queue.get_nowait()
+            except queue.Empty:
+                break
+            self._collect(result)
+
+    def _collect(self, result):
+        """Record one chromosome result."""
+
+        self.chromosomes.update()
+        self.gene_names.refresh()
+        self._log_result(result)
+        self.results.append(result)
 
     def _log_result(self, result):
         """Log details on result if necessary."""
